@@ -21,8 +21,8 @@ from vlib.oracles import nu_integral
 PROPERTY_ID = "C13"
 INF = float("inf")
 ASSUMPTIONS = [
-    "spatial step h = h_rel * (model jump scale), h_rel in [0.08, 1]: each half-axis then has >= 2 states "
-    "(constructors silently build malformed axes otherwise; no caller does that)",
+    "spatial step h = h_rel * (model jump scale), h_rel in [0.08, 1]: each half-axis then has >= 2 states; for the "
+    "model-based uniform grid also coarse steps, h_rel in [1.5, 14] (half-axes of one or two states)",
     "two-sided jump laws only (HEM p in [0.05,0.95], Merton mu_j <= 2 sigma_j): the truncation search "
     "divides by the mass of each half-line",
     "credit thresholds strictly inside (l, -h)",
@@ -43,6 +43,13 @@ def strat_case(draw, tier):
         case["copula"] = draw(copula_spec())
     if ctor in ("uniform", "geometric"):
         case["p"] = draw(st.sampled_from([0.999, 0.9999, 0.99999]))
+    if ctor in ("uniform", "geometric") and draw(st.integers(0, 3)) == 0:
+        case["sde_m"] = draw(st.sampled_from([m_ for m_ in (1, 2, 3, 5) if m_ != d]))
+    if ctor == "uniform" and draw(st.integers(0, 3)) == 0:
+        # a step that is coarse next to the truncation bounds: half-axes of one or two states
+        case["h_rel"] = draw(_f(1.5, 14.0))
+        case["p"] = draw(st.sampled_from([0.99, 0.999, 0.99999]))
+        case["coarse"] = True
     # weakly damped jumps (the truncation bounds lie tens of units from the origin; the geometric axis keeps its size)
     if ctor == "geometric" and draw(st.integers(0, 3)) == 0:
         margins[0] = {"family": "cgmy", "exp": margins[0]["exp"],
@@ -72,8 +79,16 @@ def strat_case(draw, tier):
 
 def _model(case):
     if case["d"] == 1:
-        return build_model(case["margins"][0])
-    return build_copula_model({"margins": case["margins"], "copula": case["copula"]})
+        model = build_model(case["margins"][0], force_exp=False if case.get("sde_m") else None)
+    else:
+        model = build_copula_model({"margins": case["margins"], "copula": case["copula"]})
+    if case.get("sde_m"):
+        # the grid of an SDE dX = a dY lives on the states of its driver Y (d axes), whatever the number m of components of X
+        from rpylib.model.levydrivensde.levydrivensde import Constant, LevyDrivenSDEModel
+
+        m = int(case["sde_m"])
+        return LevyDrivenSDEModel(driver=model, x0=np.ones(m), a=Constant(m=m, d=case["d"], constant=0.5))
+    return model
 
 
 def _h(case):
@@ -205,10 +220,13 @@ def body(case):
                 ok = False
         return ok
 
+    # per-case size bound: margins of very different scales under one step make model-based axes of 10^5 states and more
+    if max(len(a) for a in g.axes) * 2 ** case["refines"] > 1.5e5:
+        return [Violation("REJECTED", "axis larger than the per-case bound")]
     # sound domain: every half-axis has at least two states (see ASSUMPTIONS)
     for k, axis in enumerate(g.axes):
         o = g.origin_coordinate.value if d == 1 else g.origin_coordinate.value[k]
-        if ctor in ("uniform", "uniform-fixed") and (o < 2 or len(axis) - o - 1 < 2):
+        if ctor == "uniform-fixed" and (o < 2 or len(axis) - o - 1 < 2):
             return [Violation("REJECTED", "half-axis with fewer than two states")]
 
     if not well_formed(g, "construct", h, None, None):
@@ -228,14 +246,20 @@ def body(case):
         ratios_r = [_tail_ratio(m, l, r, h, "right") for m in case["margins"]]
         ratios_l = [_tail_ratio(m, l, r, h, "left") for m in case["margins"]]
         p = case["p"]
-        if abs(min(ratios_r) - p) > 1e-6 or abs(min(ratios_l) - p) > 1e-6:
+        # (a bound that would fall inside (0, h) is the first state itself, which keeps more than the requested share)
+        clipped_r, clipped_l = (ctor == "uniform" and r == h), (ctor == "uniform" and l == -h)
+        bad_r = (min(ratios_r) < p - 1e-6) if clipped_r else abs(min(ratios_r) - p) > 1e-6
+        bad_l = (min(ratios_l) < p - 1e-6) if clipped_l else abs(min(ratios_l) - p) > 1e-6
+        if clipped_r or clipped_l:
+            out.append(Violation("LABEL:uniform/bound-at-the-first-state"))
+        if bad_r or bad_l:
             out.append(Violation(f"{tag}/construct/tail-probability",
                                  f"requested {p}; right ratios {ratios_r}; left ratios {ratios_l}; bounds {l, r}"))
         else:
             # the same promise seen from the tail: the mass left outside is (1 - p) of the one-sided mass, in relative terms
             out_r = max(_tail_ratio(m, l, r, h, "right", outside=True) for m in case["margins"])
             out_l = max(_tail_ratio(m, l, r, h, "left", outside=True) for m in case["margins"])
-            if abs(out_r - (1 - p)) > 1e-4 * (1 - p) or abs(out_l - (1 - p)) > 1e-4 * (1 - p):
+            if (not clipped_r and abs(out_r - (1 - p)) > 1e-4 * (1 - p)) or (not clipped_l and abs(out_l - (1 - p)) > 1e-4 * (1 - p)):
                 out.append(Violation(f"{tag}/construct/tail-probability/mass-left-outside",
                                      f"requested 1 - p = {1 - p!r}; outside on the right {out_r!r}, on the left {out_l!r}; "
                                      f"bounds {l, r}; margins {case['margins']}"))
@@ -353,7 +377,8 @@ def body(case):
 
 def classify(case):
     labels = [case["ctor"], f"d={case['d']}", f"refines={case['refines']}"] + \
-             sorted({branch_of(m) for m in case["margins"]}) + (["weakly-damped-margin"] if case.get("heavy_tails") else [])
+             sorted({branch_of(m) for m in case["margins"]}) + (["weakly-damped-margin"] if case.get("heavy_tails") else []) + \
+             (["uniform/coarse-step"] if case.get("coarse") else []) + (["model-is-an-sde-with-m!=d"] if case.get("sde_m") else [])
     nt = case["refines"] >= 1 or case["ctor"] != "uniform" or case["d"] >= 2
     return labels, nt
 
